@@ -12,6 +12,27 @@ NOT_BUILT = "check not built yet in this round (claimed by DESIGN.md; " \
             "listed here until its static check exists and is exact)"
 
 CHECKS = {
+    "C18": {
+        "text": "PARTIAL: the four coordinate distance functions are "
+                "normalised symbolically and must equal the TSPLIB95 "
+                "formulas (constants included), the EDGE_WEIGHT_TYPE table "
+                "must map each name to the function matching its formula; "
+                "each explicit-format index walker's start state, step "
+                "function (vs. the successor of the triangular enumeration, "
+                "all orderings), symmetric stores, diagonal handling and "
+                "element count are decided; the writer's key set, format "
+                "choice and row order agree with the reader/walker; the "
+                "tour parser's duplicate/size/zero-base checks exist.",
+        "design_ref": "DESIGN.md section 4, C18",
+        "note": "Does NOT decide independence of line wrapping (runtime "
+                "tokenisation) nor that shipped tours have the documented "
+                "optimal length (data). Float arithmetic treated as real "
+                "arithmetic; cos(x) = cos(-x) is the only trig identity "
+                "used.",
+        "technique": "symbolic normal forms vs reference formulas + "
+                     "state-machine successor equivalence by ordering "
+                     "enumeration + writer/reader agreement",
+    },
     "C19": {
         "text": "PARTIAL writer/reader agreement: the quantity sequences "
                 "emitted by get_column_titles and get_row of both CSV "
